@@ -371,6 +371,12 @@ class TopoRunner:
             self.need(o["s"])
             self.elem(o["s"], persistent=True).disconnect_interface(self.elem(o["i"]))
             return none
+        if op == "ConnectViaStale":
+            # the handle of a service that is no longer in the model
+            h = t.add_network_service(name="zz-stale", nstype=ServiceType.L2Bridge, interfaces=[])
+            t.remove_network_service(name="zz-stale")
+            h.connect_interface(self.elem(o["i"]))
+            return none
         if op == "AddFacility":
             if o.get("ifs"):
                 # the multi-interface form: (name, labels, capacities) per interface
